@@ -10,9 +10,11 @@ import (
 	"fmt"
 	"math/rand"
 	"os"
+	"os/exec"
 	"path/filepath"
 	"sort"
 	"strings"
+	"sync"
 
 	"tags.cncf.io/container-device-interface/schema"
 	specs "tags.cncf.io/container-device-interface/specs-go"
@@ -235,6 +237,9 @@ func checkC17(c *Ctx) {
 	}
 	files := filepath.Join(c.Scratch, "docs")
 	must(os.MkdirAll(files, 0o755))
+	// thorough tier: (document, model verdict) records for the python cross-reference
+	var xmu sync.Mutex
+	var xrecs []string
 	c.RunCases("gen", c.pick(3000, 80000), 0, func(cs *Case) {
 		r := cs.R
 		var spec *specs.Spec
@@ -296,6 +301,14 @@ func checkC17(c *Ctx) {
 			return
 		}
 		wellFormed := annotationsWellFormed(inst)
+		if !c.Quick() && len(jb) < 20000 {
+			xmu.Lock()
+			if len(xrecs) < 6000 {
+				// python's json module reads every number spelling we emit; integers are exact there too
+				xrecs = append(xrecs, jsonStr(map[string]any{"doc": string(jb), "valid": model}))
+			}
+			xmu.Unlock()
+		}
 		sigParts := make([]string, len(muts))
 		for i, m := range muts {
 			sigParts[i] = stripDigits(m)
@@ -401,6 +414,29 @@ func checkC17(c *Ctx) {
 		}
 		c.Sample(4, map[string]any{"mutations": muts, "model_verdict_valid": model, "annotations_well_formed": wellFormed, "json": clip(string(jb), 600)})
 	})
+	// second reference for the model itself (thorough tier)
+	if len(xrecs) > 0 && c.replayCase == "" {
+		rf := filepath.Join(c.Scratch, "xref.jsonl")
+		must(os.WriteFile(rf, []byte(strings.Join(xrecs, "\n")+"\n"), 0o644))
+		if py, err := exec.LookPath("python3-vt"); err != nil {
+			c.Extra("python_cross_reference", "skipped: python3-vt not found")
+		} else {
+			out, err := exec.Command(py, filepath.Join(c.Verif, "tools", "xref_schema.py"), filepath.Join(c.Repo, "schema"), rf).CombinedOutput()
+			text := string(out)
+			c.Extra("python_cross_reference", clip(strings.TrimSpace(text), 1500))
+			var n, bad int
+			if i := strings.LastIndex(text, "CHECKED "); i >= 0 {
+				fmt.Sscanf(text[i:], "CHECKED %d DISAGREE %d", &n, &bad)
+			}
+			c.Count("python_cross_reference_documents", n)
+			if err != nil || n == 0 {
+				c.Extra("python_cross_reference_error", fmt.Sprint(err))
+			} else if bad > 0 {
+				// the two references disagree: the harness's model cannot be trusted
+				c.HarnessError("M-SCHEMA and python jsonschema disagree on %d of %d documents: %s", bad, n, clip(text, 800))
+			}
+		}
+	}
 	// keyword-instance coverage of the shipped files
 	both, total := 0, 0
 	var oneSided []string
